@@ -8,6 +8,7 @@ mod eng_codec;
 mod eng_hpack;
 mod eng_pair;
 mod eng_raw;
+mod eng_raw2;
 mod oracles;
 mod oracles2;
 mod mockio;
